@@ -34,6 +34,13 @@ package pub
 //@ specfun plen(p) = p == nil ? 0 : p.Len()
 // C16: container p holds what it held under container version v0, followed by one IRI element per entry of the slice ids, in order
 //@ specfun appendedIds(p, v0, ids) = p != nil && p.Len() == lenv(v0, p) + len(ids) && (forall k Int :: {p.At(k)} 0 <= k && k < lenv(v0, p) ==> p.At(k) == atv(v0, p, k)) && (forall j Int :: {ids[j]} 0 <= j && j < len(ids) ==> p.At(lenv(v0, p) + j).IsIRI() && p.At(lenv(v0, p) + j).GetIRI() == ids[j])
+// C16: element e is named by the id set ids (a map from id string to bool, as built by pub.remove)
+//@ specfun named(ids, e) = has(ids, ekey(e)) && ids[ekey(e)]
+// C16: container p holds the elements it held under container version v0 that are not named by ids, in their old order
+// (gSrc: new position -> old position, increasing; gKept: old position -> new position or -1 when removed; gR: number removed)
+//@ specfun filteredOut(p, v0, ids) = p == nil || (p.Len() + gR == lenv(v0, p) && (forall j Int :: {p.At(j)} 0 <= j && j < p.Len() ==> 0 <= gSrc[j] && gSrc[j] < lenv(v0, p) && p.At(j) == atv(v0, p, gSrc[j]) && !named(ids, p.At(j))) && (forall j Int, k Int :: {gSrc[j], gSrc[k]} 0 <= j && j < k && k < p.Len() ==> gSrc[j] < gSrc[k]) && (forall k Int :: {gKept[k]} 0 <= k && k < lenv(v0, p) ==> (gKept[k] >= 0 ==> gKept[k] < p.Len() && gSrc[gKept[k]] == k) && (gKept[k] < 0 ==> named(ids, atv(v0, p, k)))))
+// C16 update: key k of the raw request JSON / of its (single, embedded) 'object' is an explicit JSON null
+//@ specfun rawNull(raw, k) = has(raw, k) && raw[k] == nil
 //@ specfun appendedSoFar(p, v0, ids, n) = p != nil && n <= len(ids) && p.Len() == lenv(v0, p) + n && (forall k Int :: {p.At(k)} 0 <= k && k < lenv(v0, p) ==> p.At(k) == atv(v0, p, k)) && (forall j Int :: {ids[j]} 0 <= j && j < n ==> p.At(lenv(v0, p) + j).IsIRI() && p.At(lenv(v0, p) + j).GetIRI() == ids[j])
 
 // C20: the id string by which dedupeOrderedItems identifies an element
@@ -836,6 +843,28 @@ package pub
 //@ func (pub.SocialWrappedCallbacks).update$1
 //@ params idx, loopId
 //@ [C16] ensures one_update_of_the_named_object: result == nil ==> nUpdate == old(nUpdate) + 1
+//@ modifies gM0d, gM0v, gNd, gNv, gRaw
+//@ [C16] at call streams/vocab.Type.Serialize#2: ghost gM0d = domof(m)
+//@ [C16] at call streams/vocab.Type.Serialize#2: ghost gM0v = valsof(m)
+//@ [C16] at call streams/vocab.Type.Serialize#2: ghost gNd = domof($res0)
+//@ [C16] at call streams/vocab.Type.Serialize#2: ghost gNv = valsof($res0)
+//@ [C16] at call streams/vocab.Type.Serialize#2: assume!post serialisations_are_new_maps: $res0 != m
+//@ [C16] at call pub.rawObjectAt#1: assume!post the_request_json_is_not_a_serialisation: $res0 != m && $res0 != newM
+//@ [C16] at call pub.rawObjectAt#1: ghost gRaw = $res0
+//@ loop 1 [C16] invariant maps_distinct: newM != m && m != nil
+//@ loop 1 [C16] invariant sources_unchanged: domof(newM) == gNd && valsof(newM) == gNv
+//@ loop 1 [C16] invariant visited_are_supplied: forall k String :: {visited(1)[k]} visited(1)[k] ==> gNd[k]
+//@ loop 1 [C16] invariant supplied_members_copied: forall k String :: {m[k]} visited(1)[k] ==> has(m, k) && m[k] == gNv[k]
+//@ loop 1 [C16] invariant others_as_stored: forall k String :: {m[k]} !visited(1)[k] ==> has(m, k) == gM0d[k] && m[k] == gM0v[k]
+//@ loop 2 [C16] invariant maps_distinct: newM != m && m != nil && gRaw != m && gRaw != newM
+//@ loop 2 [C16] invariant sources_unchanged: domof(newM) == gNd && valsof(newM) == gNv
+//@ loop 2 [C16] invariant merged_minus_visited_nulls: forall k String :: {gM0d[k]} has(m, k) == ((gM0d[k] || gNd[k]) && !(visited(2)[k] && rawNull(cast(gRaw, "map[string]interface{}"), k)))
+//@ loop 2 [C16] invariant merged_values: forall k String :: {gM0v[k]} has(m, k) ==> m[k] == (gNd[k] ? gNv[k] : gM0v[k])
+//@ [C16] at call streams.ToType#1: assert supplied_members_replace_stored_ones: $arg1 == m && (forall k String :: {gM0d[k]} gNd[k] && !rawNull(cast(gRaw, "map[string]interface{}"), k) ==> has(m, k) && m[k] == gNv[k])
+//@ [C16] at call streams.ToType#1: assert other_members_unchanged: forall k String :: {gM0d[k]} !gNd[k] && !rawNull(cast(gRaw, "map[string]interface{}"), k) ==> has(m, k) == gM0d[k] && (gM0d[k] ==> m[k] == gM0v[k])
+//@ [C16] at call streams.ToType#1: assert members_supplied_as_null_are_removed: forall k String :: {gM0d[k]} rawNull(cast(gRaw, "map[string]interface{}"), k) ==> !has(m, k)
+//@ [C16] at call pub.rawObjectAt#1: assert nulls_are_read_from_the_supplied_object: $arg0 == w.rawActivity && $arg1 == idx
+//@ [C16] at call pub.Database.Update#1: assert the_merged_value_is_stored: $arg2 == newT
 //@ [C16] ensures at_most_one_update: nUpdate <= old(nUpdate) + 1
 //@ [C11] requires w.db != nil && op != nil && loopId != nil
 //@ [C09] requires unlocked: held == emp
@@ -1009,6 +1038,14 @@ package pub
 
 //@ func pub.remove
 //@ params c, op, target, db
+//@ modifies gV0, gOwns, gR, gSrc, gKept, gWit
+//@ [C16] at call (*net/url.URL).String#1: ghost gWit = gWit[$res0 := ipos(iter)]
+//@ loop 1 [C16] invariant position: iter != nil ==> iter == op.At(ipos(iter)) && iparent(iter) == op && ilen(iter) == op.Len()
+//@ loop 1 [C16] invariant every_object_id_is_named: forall j Int :: {op.At(j)} 0 <= j && j < (iter == nil ? op.Len() : ipos(iter)) ==> named(opIds, op.At(j))
+//@ loop 1 [C16] invariant only_object_ids_are_named: forall s String :: {opIds[s]} has(opIds, s) && opIds[s] ==> 0 <= gWit[s] && gWit[s] < (iter == nil ? op.Len() : ipos(iter)) && ekey(op.At(gWit[s])) == s
+//@ [C16] at call dyn.loopFn#1: assert removes_exactly_the_object_ids: (forall j Int :: {atv(old(ASHP), op, j)} 0 <= j && j < lenv(old(ASHP), op) ==> has(opIds, old(ekey(atv(ASHP, op, j)))) && opIds[old(ekey(atv(ASHP, op, j)))]) && (forall s String, w Int :: {opIds[s], atv(old(ASHP), op, w)} has(opIds, s) && opIds[s] && w == gWit[s] ==> 0 <= w && w < lenv(old(ASHP), op) && old(ekey(atv(ASHP, op, w))) == s)
+//@ loop 2 [C16] invariant names_fixed: (forall j Int :: {atv(old(ASHP), op, j)} 0 <= j && j < lenv(old(ASHP), op) ==> has(opIds, old(ekey(atv(ASHP, op, j)))) && opIds[old(ekey(atv(ASHP, op, j)))]) && (forall s String, w Int :: {opIds[s], atv(old(ASHP), op, w)} has(opIds, s) && opIds[s] && w == gWit[s] ==> 0 <= w && w < lenv(old(ASHP), op) && old(ekey(atv(ASHP, op, w))) == s)
+//@ loop 3 [C16] invariant names_fixed: (forall j Int :: {atv(old(ASHP), op, j)} 0 <= j && j < lenv(old(ASHP), op) ==> has(opIds, old(ekey(atv(ASHP, op, j)))) && opIds[old(ekey(atv(ASHP, op, j)))]) && (forall s String, w Int :: {opIds[s], atv(old(ASHP), op, w)} has(opIds, s) && opIds[s] && w == gWit[s] ==> 0 <= w && w < lenv(old(ASHP), op) && old(ekey(atv(ASHP, op, w))) == s)
 //@ [C11] requires op != nil && target != nil && db != nil
 //@ [C09] requires unlocked: held == emp
 //@ [C09] ensures unlocked: held == emp
@@ -1021,6 +1058,30 @@ package pub
 
 //@ func pub.remove$1
 //@ params t
+//@ modifies gV0, gOwns, gR, gSrc, gKept
+//@ [C16] at call pub.Database.Owns#1: ghost gOwns = $res0 && $res1 == nil
+//@ [C16] at call pub.Database.Get#1: ghost gV0 = ASHP
+//@ [C16] at call pub.Database.Get#1: ghost gR = 0
+//@ [C16] at call (*net/url.URL).String#*: ghost gSrc = gSrc[i := i + gR]
+//@ [C16] at call (*net/url.URL).String#*: ghost gKept = gKept[i + gR := i]
+//@ [C16] at call Remove#*: ghost gKept = gKept[i + gR := 0 - 1]
+//@ [C16] at call Remove#*: ghost gR = gR + 1
+//@ [C16] ensures targets_not_owned_are_left_alone: !gOwns ==> nUpdate == old(nUpdate)
+//@ [C16] ensures owned_target_updated_once: result == nil && gOwns ==> nUpdate == old(nUpdate) + 1
+//@ [C16] ensures at_most_one_update: nUpdate <= old(nUpdate) + 1
+//@ [C16] at call pub.Database.Update#1: assert exactly_the_named_ids_removed_rest_in_order: $arg2 == tp && (streams.IsOrExtendsActivityStreamsOrderedCollection(tp) ? filteredOut(props[tp]["ActivityStreamsOrderedItems"], gV0, opIds) : filteredOut(props[tp]["ActivityStreamsItems"], gV0, opIds))
+//@ loop 1 [C16] invariant counts: oiProp != nil && 0 <= i && i <= oiProp.Len() && gR >= 0 && oiProp.Len() + gR == lenv(gV0, oiProp)
+//@ loop 1 [C16] invariant kept_prefix: forall j Int :: {oiProp.At(j)} 0 <= j && j < i ==> 0 <= gSrc[j] && gSrc[j] < i + gR && oiProp.At(j) == atv(gV0, oiProp, gSrc[j]) && !named(opIds, oiProp.At(j))
+//@ loop 1 [C16] invariant increasing: forall j Int, k Int :: {gSrc[j], gSrc[k]} 0 <= j && j < k && k < i ==> gSrc[j] < gSrc[k]
+//@ loop 1 [C16] invariant suffix_shifted: forall j Int :: {oiProp.At(j)} i <= j && j < oiProp.Len() ==> oiProp.At(j) == atv(gV0, oiProp, j + gR)
+//@ loop 1 [C16] invariant every_old_accounted: forall k Int :: {gKept[k]} 0 <= k && k < i + gR ==> (gKept[k] >= 0 ==> gKept[k] < i && gSrc[gKept[k]] == k) && (gKept[k] < 0 ==> named(opIds, atv(gV0, oiProp, k)))
+//@ loop 1 [C16] invariant the_targets_items: props[tp]["ActivityStreamsOrderedItems"] == oiProp
+//@ loop 2 [C16] invariant counts: iProp != nil && 0 <= i && i <= iProp.Len() && gR >= 0 && iProp.Len() + gR == lenv(gV0, iProp)
+//@ loop 2 [C16] invariant kept_prefix: forall j Int :: {iProp.At(j)} 0 <= j && j < i ==> 0 <= gSrc[j] && gSrc[j] < i + gR && iProp.At(j) == atv(gV0, iProp, gSrc[j]) && !named(opIds, iProp.At(j))
+//@ loop 2 [C16] invariant increasing: forall j Int, k Int :: {gSrc[j], gSrc[k]} 0 <= j && j < k && k < i ==> gSrc[j] < gSrc[k]
+//@ loop 2 [C16] invariant suffix_shifted: forall j Int :: {iProp.At(j)} i <= j && j < iProp.Len() ==> iProp.At(j) == atv(gV0, iProp, j + gR)
+//@ loop 2 [C16] invariant every_old_accounted: forall k Int :: {gKept[k]} 0 <= k && k < i + gR ==> (gKept[k] >= 0 ==> gKept[k] < i && gSrc[gKept[k]] == k) && (gKept[k] < 0 ==> named(opIds, atv(gV0, iProp, k)))
+//@ loop 2 [C16] invariant the_targets_items: props[tp]["ActivityStreamsItems"] == iProp
 //@ [C11] requires db != nil && t != nil
 //@ [C09] requires unlocked: held == emp
 //@ [C09] ensures unlocked: held == emp
@@ -1028,7 +1089,7 @@ package pub
 //@ [C08] ensures unlocked: held == emp
 //@ [C07] requires authed: authed
 //@ [C08] at call Database.Update#1: assert same_hold: held[srcKey[tp]] && srcEpoch[tp] == epoch[srcKey[tp]]
-//@ modifies $db
+//@ modifies $dbstate, ASHP, props
 //@ loop 1 [C09] invariant holds_t: held == emp[str(t) := true]
 //@ loop 2 [C09] invariant holds_t: held == emp[str(t) := true]
 //@ loop 1 [C08] invariant holds_t: held == emp[str(t) := true] && srcKey[tp] == str(t) && srcEpoch[tp] == epoch[str(t)]
@@ -1172,6 +1233,12 @@ package pub
 //@ [C11] requires a != nil
 //@ modifies ASH, ASHP, props, A:Int, A:Iface, MD:String:Int, MV:String:Int
 //@ skip C11 panic-freedom and termination of normalizeRecipients need quantified invariants over five slices of maps and type-distinctness of property values; not proved (bounded stand-in only)
+
+// the idx-th raw 'object' entry: the embedded JSON object itself (single form, idx 0), or the idx-th entry of the array form
+//@ func pub.rawObjectAt
+//@ params raw, idx
+//@ [C16] ensures single_embedded_object: raw != nil && has(raw, "object") && raw["object"].dyn == typetag("map[string]interface{}") ==> result == (idx == 0 ? raw["object"].pl : 0)
+//@ [C16] ensures no_object_no_nulls: raw == nil || !has(raw, "object") ==> result == nil
 
 //@ func pub.toTombstone
 //@ params obj, id, now
